@@ -187,7 +187,8 @@ func (ra *ResponseAdaptor) compress(resp *httpprot.Response) string {
 		resp.HTTPHeader().Set(keyContentLength, strconv.Itoa(len(data)))
 	}
 
-	resp.HTTPHeader().Set(keyContentEncoding, "gzip")
+	// codings the body already carries stay in front of the new one
+	resp.HTTPHeader().Add(keyContentEncoding, "gzip")
 	return ""
 }
 
